@@ -41,7 +41,10 @@ class Filter {
     if (variant_ == true)  // "true" means "allow recursively"
       return *this;
     JsonVariantConst member = variant_[key];
-    return Filter(member.isNull() ? variant_["*"] : member);
+    // the wildcard only stands for object members, not for array elements
+    if (member.isNull() && detail::IsString<TKey>::value)
+      member = variant_["*"];
+    return Filter(member);
   }
 
  private:
